@@ -230,10 +230,10 @@ def step (st : St) (line : String) : St × String :=
     match bytesOfHex h with
     | some b => ({ st with items := st.items ++ [.line b] }, "ok")
     | none => (st, "bad-op")
-  | ["item", "o", n, g, hl, body] =>
-    match n.toNat?, g.toNat?, bytesOfHex hl, bytesOfHex body with
-    | some n, some g, some hl, some body => ({ st with items := st.items ++ [.obj n g hl body] }, "ok")
-    | _, _, _, _ => (st, "bad-op")
+  | ["item", "o", n, g, text] =>
+    match n.toNat?, g.toNat?, bytesOfHex text with
+    | some n, some g, some text => ({ st with items := st.items ++ [.obj n g text] }, "ok")
+    | _, _, _ => (st, "bad-op")
   | ["q.itemsok"] =>
     -- hypothesis of C02_fallback for this file: body = items, rest = tail starting with the trailer line
     let ends := st.ends.filterMap (fun (p, e) =>
